@@ -449,6 +449,11 @@ def is_instance(value: Any, type_: Any) -> bool:
     if type_ is int and (value is True or value is False):
         return False
 
+    if is_union(type_):
+        # Check members one by one: isinstance() accepts unions, but would let
+        # a bool pass for an int member
+        return any(is_instance(value, t) for t in get_args(type_))
+
     try:
         # As described in PEP 484 - section: "The numeric tower"
         if (type_ in [float, complex] and isinstance(value, (int, float))) or isinstance(
@@ -459,12 +464,6 @@ def is_instance(value: Any, type_: Any) -> bool:
         pass
     if type_ == Any:
         return True
-
-    if is_optional(type_) and value is None:
-        return True
-
-    if is_union(type_):
-        return any(is_instance(value, t) for t in get_args(type_))
 
     if is_collection(type_):
         orig = get_origin(type_)
